@@ -42,11 +42,34 @@ def observed_history_str(seq, cap, obs_str):
     return "(" + " ".join(parts) + ")"
 
 
+def default_value_histories(length):
+    """all sequences of `length` letters from {push d, push v, push_force d, push_force v, pop, flush} where d is the
+    element type's default value (0: what an empty cell holds) and v a fresh non-default value"""
+    for seq in itertools.product(((PUSH, 0), (PUSH, 1), (PUSHFORCE, 0), (PUSHFORCE, 1), (POP,), (FLUSH,)), repeat=length):
+        yield seq
+
+
+def default_history_str(seq, obs_str):
+    parts, nxt = [], 1
+    for o in seq:
+        if len(o) == 2:
+            if o[1]:
+                parts.append("(%d %d)" % (o[0], nxt)); nxt += 1
+            else:
+                parts.append("(%d 0)" % o[0])
+        else:
+            parts.append("(%d)" % o[0])
+        parts.append(obs_str)
+    return "(" + " ".join(parts) + ")"
+
+
 def rand_history(rng, cap, n):
     ops = []
     ln = 0
     phase_push = True
     vals = [0, 1, -1, 2147483647, -2147483648]
+    # how often a pushed value is the default value 0 (an empty cell and a live 0 look the same in the container)
+    pzero = rng.choice([0.0, 0.1, 0.35, 0.7])
     for _ in range(n):
         if rng.random() < 0.02:
             phase_push = not phase_push
@@ -56,7 +79,7 @@ def rand_history(rng, cap, n):
             w = rng.random()
             if w < (0.7 if phase_push else 0.3):
                 t = PUSHFORCE if rng.random() < 0.45 else PUSH
-                v = rng.choice(vals) if rng.random() < 0.2 else rng.randrange(-1000, 1000)
+                v = 0 if rng.random() < pzero else rng.choice(vals) if rng.random() < 0.2 else rng.randrange(-1000, 1000)
                 ops.append([t, v])
                 ln = min(cap, ln + 1)
             elif w < 0.995:
@@ -88,17 +111,29 @@ def buffer_streams(seed, tier):
                       "every sequence of %d operations from {push, push_force, pop, flush} (release profile: %d), capacities 1..4, both kinds; after every operation all observers run "
                       "(capacity, size, to_string, copy_oldest, peek_oldest, peek_newest, iter, is_empty, is_full, get/get_mut(i) and copy(i) for i in 0..cap+1); covers all shorter sequences as prefixes"
                       % (L, L - 1 if tier == "quick" else L)))
+    # 1b. the same with the DEFAULT value among the pushed values: every push pushes either 0 (= T::default(), the
+    #     content of an empty cell) or a fresh non-default value, in every combination
+    L0 = {"quick": 5, "thorough": 6, "search": 6}[tier]
+    cases = []
+    for kind in (0, 1):
+        for cap in caps:
+            obs_str = " ".join(sx_str(o) for o in observers(cap))
+            for k, seq in enumerate(default_value_histories(L0)):
+                cases.append("(%d %d %d %s)" % ((k + kind) % 2, kind, cap, default_history_str(seq, obs_str)))
+    out.append(Stream("mutators^%d-default-values+observe-all" % L0, "buffer", "buffer.check", cases,
+                      "every sequence of %d operations from {push 0, push v, push_force 0, push_force v, pop, flush} (0 = the element type's default value, which is also what an empty cell holds; v = a fresh non-default value), "
+                      "capacities 1..4, both kinds, profiles alternating; after every operation all observers run: a live default-valued item (oldest, newest, in the middle) is told apart from an empty cell" % L0))
     # 2. every history up to length D over the whole API with each operation on its own
     D = {"quick": 3, "thorough": 4, "search": 3}[tier]
     cases = []
     for kind in (0, 1):
         for cap in caps:
-            alpha = [[PUSH, 7], [PUSHFORCE, 9], [POP], [FLUSH]] + observers(cap)
+            alpha = [[PUSH, 7], [PUSHFORCE, 9], [PUSH, 0], [PUSHFORCE, 0], [POP], [FLUSH]] + observers(cap)
             for d in range(1, D + 1):
                 for k, ops in enumerate(itertools.product(alpha, repeat=d)):
                     cases.append(sx_str([(k + d) % 2, kind, cap, list(ops)]))
     out.append(Stream("whole-api<=%d" % D, "buffer", "buffer.check", cases,
-                      "all histories up to length %d over the whole public API (each observer as an operation of its own), capacities 1..4, both kinds, profiles alternating" % D))
+                      "all histories up to length %d over the whole public API (each observer as an operation of its own; pushes of a non-default value and of the default value 0), capacities 1..4, both kinds, profiles alternating" % D))
     # 3. long random histories, many wrap-arounds
     n = {"quick": 600, "thorough": 6000, "search": 6000}[tier]
     cases = []
@@ -106,7 +141,7 @@ def buffer_streams(seed, tier):
         cap = rng.choice([1, 2, 3, 3, 4, 5, 7, 8, 16, 33])
         cases.append(sx_str([k % 2, rng.randrange(2), cap, rand_history(rng, cap, 500)]))
     out.append(Stream("random500", "buffer", "buffer.check", cases,
-                      "random histories of 500 operations, capacities 1..33, alternating push-heavy and pop-heavy phases (cursors wrap many times), positions concentrated at len/capacity and at usize::MAX, values incl. 0 (= the default cell) and i32 extremes"))
+                      "random histories of 500 operations, capacities 1..33, alternating push-heavy and pop-heavy phases (cursors wrap many times), positions concentrated at len/capacity and at usize::MAX, values incl. i32 extremes; per history 0 / 10 / 35 / 70 percent of the pushed values are 0 (= the default cell)"))
     # 4. capacity 0: outside the quantifier (checker verdict 2); model and code are still compared
     cases = []
     for prof in (0, 1):
@@ -127,7 +162,7 @@ LEVEL_TEXT = ("Machine-checked theorem C17_buffer_refines_bounded_seq: for every
               "(Vec of `capacity` cells, start/end/len cursors, the real `% capacity`, usize subtractions and `as i32`/`as usize` casts, Vec index panics) never panics and returns exactly the outputs and final contents of a bounded list: "
               "plain push ignored when full, forced push drops the oldest, Queue pops the oldest / Stack pops the newest, get(i) = i-th oldest / i-th newest, iteration oldest first, printing exactly the live items newest first, size = number of live items <= capacity "
               "(C17_buffer_inv_preserved, C17_buffer_step_refines, C17_buffer_run_refines from any state satisfying the invariant; C17_spec_bounded; C17_to_string_live_items_newest_first; C17_iter_live_items_oldest_first; C17_get_by_kind). "
-              "The model is tied to the code by running every sequence of 7 (thorough: 8) mutators with all observers after every step for capacities 1..4 and both kinds, every whole-API history up to length 3 (4), and random histories of 500 operations, "
+              "The model is tied to the code by running every sequence of 7 (thorough: 8) mutators with all observers after every step for capacities 1..4 and both kinds, every sequence of 5 (6) mutators whose pushed values are the default value 0 or fresh non-default values in every combination (a live item equal to T::default() vs an empty cell), every whole-API history up to length 3 (4), and random histories of 500 operations (0..70 percent default values), "
               "on the real PushBuffer<i32> and on the extracted model, and by evaluating the specification itself on the implementation's outputs (C17_suite_result_is_spec: inside the quantifier the model's printed result is the specification's)."
               " Instruction level (Props/C17io.v): C17_io_fifo proves for every input queue and every sequence of INPUT.READ/GET/NEXT/AVAILABLE/STACKDEPTH and OUTPUT.* instructions, run through the interpreter with the real registry, that reads see exactly the oldest unconsumed message, NEXT consumes exactly it, and OUTPUT.WRITE enqueues in program order (ignored when the 3-slot queue is full); tied by exhaustive/random INPUT/OUTPUT instruction sequences on the real interpreter.")
 LEVEL_NOTE = ("Trusted: Coq kernel, extraction (ExtrOcamlBasic), ocaml/driver.ml, the Rust harness and generators; theorems are closed under the global context (no axioms). "
